@@ -23,6 +23,37 @@ COMPONENTS = {
     ],
 }
 
+COMPONENTS_BY_ENGINE = {
+    "cluster": COMPONENTS,
+    "logsim": {
+        "real": ["d-engine-core BufferedRaftLog incl. its IO task (c18/c19)", "d-engine-server FileStorageEngine (FileLogStore, FileMetaStore) and "
+                 "RocksDBStorageEngine on a real directory (c20/c21)"],
+        "stub_or_replica": ["SimStorageEngine (page-cache/durable split) under BufferedRaftLog in c18/c19", "reference LogModel / StoreModel",
+                            "vendored tokio (inline blocking), libc clock/getrandom seams"],
+    },
+    "smsim": {
+        "real": ["d-engine-server FileStateMachine and RocksDBStateMachine (apply_chunk, WAL, checkpoint, recovery, get/get_multi/scan_prefix, "
+                 "lease_background_cleanup, start/stop/Drop) on a real directory in /dev/shm", "d-engine-server TtlLease",
+                 "real process kill: each lifetime is a child process ended by abort()"],
+        "stub_or_replica": ["the node around the state machine (commit handler re-applying the suffix after restart) is replicated by the harness",
+                            "wall clock and monotonic clock through the libc seam (virtual, advanced by the plan); vendored tokio inline blocking",
+                            "reference key-value/TTL model (about 40 lines)"],
+    },
+}
+
+ASSUMPTIONS_BY_ENGINE = {
+    "cluster": [
+        "one global virtual clock: per-node clock rate skew is not simulated",
+        "tasks are serialised on one thread: interleavings happen at await points and seam yields only",
+        "SimTransport replaces GrpcTransport (tonic/h2/TLS not executed); stream mode keeps per-stream FIFO order",
+    ],
+    "logsim": ["single caller task plus the IO task on one thread; interleavings at await points only",
+               "File/RocksDB engines see graceful close or hook-captured directory images, not arbitrary power loss"],
+    "smsim": ["process-crash semantics: every completed write() survives the kill; power loss (lost page cache) is not simulated",
+              "one applier at a time (as in the node: a single commit-handler task calls apply_chunk)",
+              "TTL deadlines within 1 s of an observation are not judged"],
+}
+
 DETERMINISM_SCENARIOS = ["staletail", "general", "election", "lease", "durability", "lag", "snapshot", "membership", "deadline"]
 
 
@@ -71,6 +102,23 @@ PROPS = {
                     "FileMetaStore::save_to_file is captured as a directory image (process-crash semantics) and, at points before the "
                     "code synced, every prefix of every file that changed (torn write); each image is reopened. Exhaustive per pair over "
                     "crash points x tear lengths; non-trivial = every run"},
+    "C15": {"engine": "smsim", "batches": [B("crash_points", "c15", 300, 3000, masks=[]), B("mixed", "c22", 100, 1000, masks=[])],
+            "rule": "one evaluation = one generated plan of 2-4 process lifetimes of one real File or RocksDB state machine: apply batches "
+                    "(put / put-with-TTL / delete / CAS / noop), clock advances past the checkpoint interval, expiry cleanups; each lifetime is a "
+                    "child process that is killed (abort, no destructors) after its last operation or at the n-th guarded crash point inside an "
+                    "engine write (WAL append, memory update, checkpoint data/metadata/TTL file, WAL clear, RocksDB batch write; recovery "
+                    "included), or stopped gracefully; after every restart the reported applied index, the contents and the effect of "
+                    "re-applying the unreported suffix are compared with the reference model; non-trivial = at least one restart"},
+    "C22": {"engine": "smsim", "batches": [B("semantics", "c22", 400, 4000, masks=[]), B("ttl_mix", "c23", 100, 1000, masks=[])],
+            "rule": "one evaluation = one generated command plan (3 keys incl. a shared prefix, 5 values incl. the empty value, chunks of 1-6 "
+                    "commands with several CAS on one key inside a chunk) on one real File or RocksDB state machine; after every chunk the "
+                    "ApplyResult flags/indexes and get / get_multi (duplicate key) / scan_prefix are compared with the reference semantics, "
+                    "which is chunk-independent; non-trivial = at least one chunk"},
+    "C23": {"engine": "smsim", "batches": [B("ttl", "c23", 400, 4000, masks=[]), B("crash_points", "c15", 100, 1000, masks=[])],
+            "rule": "one evaluation = one generated plan mixing put-with-TTL (1-4 s), plain put, CAS, delete, virtual wall-clock advances "
+                    "(incl. while the process is down), expiry cleanup runs, graceful restarts and kills on one real File or RocksDB state "
+                    "machine; at every cleanup keys due >= 1 s ago must be gone, keys due >= 1 s ahead and keys whose TTL was cancelled must "
+                    "still hold their value; non-trivial = at least one restart"},
     "C26": {"batches": [B("exposed_membership", "membership", 160, 1600, masks=["snapshot_install"]),
                         B("general_exposed", "general", 80, 800, masks=["snapshot_install"])]},
     "C27": {"batches": [B("membership", "membership", 180, 1800), B("general", "general", 60, 600)]},
